@@ -54,6 +54,7 @@ type histStep struct {
 	Lag        []string              `json:"lag,omitempty"`     // nodes whose listed copy is NOT refreshed from the API server ("*": all)
 	Edits      []hEdit               `json:"edits,omitempty"`
 	Oracle     map[string]stepOracle `json:"oracle,omitempty"` // by node group name; absent = no failure
+	RefreshSeq []bool                `json:"refresh_seq,omitempty"` // outcomes of this scan's provider refresh / rebuild describes (missing = ok)
 	Note       string                `json:"note,omitempty"`
 }
 
@@ -390,6 +391,7 @@ func (h *histWorld) effective(baseSec, offsetNs int64, st *histStep, realNow tim
 			es.Tries[g.Opts.CloudProviderGroupName] = ngi.(*awsprov.NodeGroup).VerifTerminateTries()
 		}
 	}
+	es.RefreshSeq = st.RefreshSeq
 	es.Nodes = h.listedNodes()
 	for _, p := range h.pods {
 		es.Pods = append(es.Pods, p.DeepCopy())
@@ -583,7 +585,7 @@ func runHistory(hs *histSpec) ([]histScan, error) {
 				h.vOut[g.Name] = &v
 			}
 		}
-		if obs.Out >= 2 { // fatal, exit or panic: the process would have ended here
+		if obs.Out >= 1 { // an error returned by RunOnce (the main loop returns it and the process ends), exit or panic: the process would have ended here
 			break
 		}
 	}
